@@ -28,6 +28,7 @@ pub struct Oracle {
   pub config: BTreeMap<String, (u32, u32)>,
   default_config: (u32, u32),
   fwd_event: bool,
+  auth_mode: bool,
   pub failures: Vec<String>,
 }
 
@@ -71,6 +72,7 @@ impl Oracle {
       config: BTreeMap::new(),
       default_config: (cfg.max_clients, cfg.max_payload),
       fwd_event: cfg.has_op(narwhal_modulator::modulator::Operation::ForwardEvent),
+      auth_mode: cfg.has_op(narwhal_modulator::modulator::Operation::Auth),
       failures: Vec::new(),
     }
   }
@@ -104,7 +106,7 @@ impl Oracle {
           });
           if !told {
             for tag in ["C05", "C18"] {
-              if self.fwd_event && !env.ev_ok {
+              if (self.fwd_event && !env.ev_ok) || (self.has_mod && env.down) {
                 fails.push(format!("{tag}: [cleanup-event-lost-when-forwarding-fails] the last connection of {u} ended while the modulator refused the event: member {v} of {h} (connection {k2}) was not told"));
               } else {
                 fails.push(format!("{tag}: [cleanup-not-announced] the last connection of {u} ended but member {v} of {h} (connection {k2}) was not told MEMBER_LEFT"));
@@ -213,6 +215,11 @@ impl Oracle {
               },
               Message::IdentifyAck(p) => {
                 let nid = p.nid.to_string();
+                if self.auth_mode {
+                  for tag in ["C09", "C06"] {
+                    fails.push(format!("{tag}: IDENTIFY was acknowledged ({nid}) although the modulator authenticates clients: the connection is authenticated without any token having been approved"));
+                  }
+                }
                 match user_of(&nid, &self.domain) {
                   Some(u) if !u.is_empty() && !u.contains(char::is_whitespace) && !u.contains('@') => {
                     if !self.conns_of(&u).is_empty() {
@@ -421,7 +428,7 @@ impl Oracle {
                   }
                 }
               }
-              if was_owner && remaining > 0 && env.ev_ok && !handed {
+              if was_owner && remaining > 0 && !env.quiet() && !handed {
                 fails.push(format!("C04: owner {m} left {h} with {remaining} members remaining but no new owner was announced"));
               }
               // (after a clean-up whose events the modulator refused nobody was told who the successor is: unknown owner)
